@@ -6,6 +6,7 @@ pub mod gen_loop;
 pub mod gen_fml;
 pub mod gen_inst;
 pub mod inst;
+pub mod net;
 pub mod oracle_frames;
 pub mod ovl;
 pub mod oracle_tlv;
